@@ -166,11 +166,12 @@ def _run_sequence_inner(c, seq):
         try:
             out = cl(ds, print_removed=False) if kind == "call" else cl.test_data(ds, print_output=False, print_removed=False)
             raised = False
-        except ValueError:
+        except ValueError as e:
             raised = True
+            refused_reuse = "scaling doesn't match" in str(e)
         prev_ds = ds
-        if again and raised:
-            continue          # re-use refused: nothing was classified
+        if again and raised and refused_reuse:
+            continue          # re-use refused because of the object's scaling attributes: nothing was classified
         labelled_in = inr & (yd >= 0)
         if kind == "call":
             if not inr.any():
